@@ -543,6 +543,9 @@ fn strings(max_len: usize) -> Vec<String> {
 // ---------------------------------------------------------------------------- run
 
 fn run(cx: &Cx) {
+    if let Err(e) = agv_c17::model::self_test() {
+        return cx.machinery_error(e);
+    }
     let quick = cx.quick();
     let all = Opts::all();
     let relevant = Opts::text_relevant();
